@@ -38,7 +38,7 @@ def run_machine(ctx, want, limit_quick, limit_thorough, classes=CLASSES, walks=N
     for cls in classes:
         names = list(me.bases(cls))
         if quick:
-            names = names[:2] + [n for n in names[2:] if n.endswith("_nano")]
+            names = names[:2] + [n for n in names[2:] if n.endswith("_nano") or n.endswith("_far")]
         for b in names:
             todo.append((cls, b))
     from ..pool import _init
